@@ -123,6 +123,81 @@ def injected_case(draw):
     return case
 
 
+# ---------------------------------------------------------------------------- a real signal while an attempt is running
+
+
+@st.composite
+def signal_case(draw):
+    return {
+        "mode": draw(st.sampled_from(["call", "execute"])),
+        "policy": draw(st.sampled_from(["Retry", "Policy", "RetryPolicy"])),
+        "how": draw(st.sampled_from(["KeyboardInterrupt", "SystemExit"])),
+        "attempt_timeout": draw(st.sampled_from([None, 30.0, 30.0])),
+        "at_attempt": draw(st.sampled_from([1, 2])),
+    }
+
+
+def check_signal(case: dict) -> Verdict:
+    """KeyboardInterrupt / SystemExit raised by a real signal handler in the calling thread while an attempt is
+    still running (the usual Ctrl-C / SIGTERM situation) must leave call()/execute() at once: the oracle is
+    timing-independent - the operation only finishes when the harness releases it, which it does after the
+    policy call has returned; so the call must end while the operation is still blocked."""
+    import signal
+    import threading
+
+    import redress
+
+    v = Verdict()
+    release = threading.Event()
+    state = {"finished": False, "calls": 0}
+
+    def op():
+        state["calls"] += 1
+        if state["calls"] < case["at_attempt"]:
+            raise ConnectionError("flaky")
+        signal.setitimer(signal.ITIMER_REAL, 0.05)  # the signal arrives while this attempt is running
+        release.wait(4.0)
+        state["finished"] = True
+        return "done"
+
+    def handler(signum, frame):
+        if case["how"] == "KeyboardInterrupt":
+            raise KeyboardInterrupt()
+        raise SystemExit(143)
+
+    kw = dict(classifier=lambda e: redress.ErrorClass.TRANSIENT, strategy=lambda ctx: 0.0, max_attempts=3, deadline_s=60.0, attempt_timeout_s=case["attempt_timeout"])
+    cls = {"Retry": redress.Retry, "Policy": None, "RetryPolicy": redress.RetryPolicy}[case["policy"]]
+    pol = redress.Policy(retry=redress.Retry(**kw)) if cls is None else cls(**kw)
+    old = signal.signal(signal.SIGALRM, handler)
+    got = None
+    finished_at_exit = None
+    try:
+        try:
+            getattr(pol, case["mode"])(op)
+            got = "returned"
+        except BaseException as x:  # noqa: BLE001
+            got = type(x).__name__
+        finished_at_exit = state["finished"]
+    finally:
+        signal.setitimer(signal.ITIMER_REAL, 0)
+        signal.signal(signal.SIGALRM, old)
+        release.set()
+    if case["attempt_timeout"] is None:
+        # the operation runs in the calling thread: the signal handler's exception comes out of the operation itself
+        if got != case["how"]:
+            v.fail(f"C13:signal:{case['how']}-not-propagated", f"{case}: the call ended with {got}")
+    else:
+        if got != case["how"]:
+            v.fail(f"C13:signal:{case['how']}-not-propagated", f"{case}: the call ended with {got}")
+        elif finished_at_exit:
+            v.fail(f"C13:signal:{case['how']}-delayed", f"{case}: {case['how']} was raised in the waiting thread but the policy call only returned after the running attempt had finished")
+    if state["calls"] > case["at_attempt"]:
+        v.fail(f"C13:signal:{case['how']}-retried", f"{case}: the operation was invoked again after the signal")
+    v.nontrivial = True
+    v.tag("real-signal:" + case["how"], "attempt_timeout" if case["attempt_timeout"] else "inline")
+    return v
+
+
 # exhaustive: for one long always-failing run, abort_if first answers True at every poll index
 def enum_polls(tier: str):
     entries = ENTRIES if tier == "thorough" else ["Retry.call", "Retry.execute", "AsyncRetry.call", "AsyncPolicy.execute"]
@@ -146,7 +221,9 @@ PROP = Property(
         "exhaustively for fixed always-failing runs), or the operation raises AbortRetryError at attempt k; (b) cancellation: "
         "the operation raises CancelledError / KeyboardInterrupt / SystemExit at attempt k; for each generated case every "
         "sleeper invocation raises each cancellation type in turn (sync and async), and for async entries each type is thrown "
-        "into the coroutine at EVERY await point (operation awaits and sleeps) with the harness stepping the coroutine. "
+        "into the coroutine at EVERY await point (operation awaits and sleeps) with the harness stepping the coroutine; a small "
+        "real-clock stream delivers SIGALRM to the calling thread while an attempt is running (with and without "
+        "attempt_timeout_s) - the call must end while the operation is still blocked (timing-independent oracle). "
         "Oracle: poll-placement grammar (every attempt and every sleep is preceded by a poll), nothing after the first True, "
         "AbortRetryError / ABORTED delivered, cancellation object propagates unchanged and is never classified. Non-trivial = "
         "abort after at least one action (p > 0) or cancellation at attempt > 1."
@@ -155,5 +232,6 @@ PROP = Property(
         Stream("abort_cancel", check, strategy=C.with_entry(gen.retry_case(PROFILE), ENTRIES), quick=14000, thorough=300000),
         Stream("every_poll_index", check, enum=enum_polls, quick=1, thorough=1, exhaustive=True),
         Stream("cancellation_points", check_injected, strategy=injected_case(), quick=1500, thorough=40000),
+        Stream("real_signal", check_signal, strategy=signal_case(), quick=48, thorough=400, per_shard_min=3),
     ],
 )
